@@ -38,7 +38,8 @@ RULE = ('cases are enumerated/seeded deterministically; a case is non-trivial wh
 OPTS = {'rlimit': 100_000_000, 'canary_every': 10}
 EXPLANATION = __doc__
 
-FORMS = ['keys-int', 'keys-name', 'keys-mixed', 'mapping-int', 'mapping-name', 'kwargs', 'kwargs-permuted', 'fromkeysvalues', 'dense', 'grades']
+FORMS = ['keys-int', 'keys-name', 'keys-mixed', 'mapping-int', 'mapping-name', 'kwargs', 'kwargs-permuted', 'fromkeysvalues', 'dense', 'grades',
+         'keys-name-permuted', 'mapping-name-permuted']
 
 
 def cases(tier, seed):
@@ -160,6 +161,23 @@ def run_case(desc, V):
         elif form == 'dense':
             order = list(alg.canon2bin.values())
             x = alg.multivector(values=[labels[k] for k in order])
+        elif form in ('keys-name-permuted', 'mapping-name-permuted'):
+            # blade names given as keys in a NON-canonical spelling: the library may refuse them, but if it accepts them the
+            # coefficient must land on the blade with the permutation sign
+            names, expected = [], {}
+            for i, k in enumerate(keys):
+                name = alg.bin2canon[k]
+                sp = rng.choice(_spellings(name, rng)) if len(name) > 2 else name
+                s_ref, k_ref = km.spelling(sp)
+                names.append(sp)
+                expected[k] = labels[k] if s_ref > 0 else -labels[k]
+            try:
+                if form == 'keys-name-permuted':
+                    x = alg.multivector(keys=tuple(names), values=[labels[k] for k in keys])
+                else:
+                    x = alg.multivector({n: labels[k] for n, k in zip(names, keys)})
+            except (KeyError, ValueError, TypeError):
+                return [Eq('refused', 1, 1)]
         elif form in ('kwargs', 'kwargs-permuted'):
             kw = {}
             expected = {}
@@ -259,6 +277,12 @@ def _run_errors(desc):
         must_raise('keys-outside-grades', lambda: alg.multivector(keys=(3,), values=[1], grades=(1,)))
         must_raise('kwargs-outside-grades', lambda: alg.vector(**{alg.bin2canon[3]: 1}))
     must_raise('invalid-grade', lambda: alg.multivector(values=[1], grades=(d + 1,)))
+    # keys that are no blade of this algebra
+    must_raise('key-outside-algebra', lambda: alg.multivector(keys=(2 ** d,), values=[5]))
+    must_raise('key-outside-algebra-mixed', lambda: alg.multivector(keys=(0, 2 ** d + 1), values=[1, 5]))
+    must_raise('key-outside-algebra-mapping', lambda: alg.multivector({0: 1, 2 ** (d + 1): 5}))
+    if d >= 1:
+        must_raise('key-outside-algebra-vector', lambda: alg.vector(keys=(2 ** d,), values=[5]))
     must_raise('negative-grade', lambda: alg.multivector(values=[1], grades=(-1,)))
     if d >= 1:
         must_raise('wrong-number-of-values-for-grade', lambda: alg.multivector(values=[1] * (d + 1), grades=(1,)))
